@@ -18,11 +18,11 @@ func init() {
 	eng.Register(&eng.Property{
 		ID: "C13", Level: "exploration", Race: true,
 		Rule: "(a) sequential histories over seeded sets and scope trees: after Close returned on a scope (directly, through an ancestor, through provider.Close, or by cancelling its context with a bounded wait) every Get*/CreateScope on it and on every descendant must report ErrScopeDisposed, provider operations ErrProviderDisposed. " +
-			"(b) overlaps, exhaustive over pause points: for op in {Get scoped, Get transient with dependencies, GetGroup, GetKeyed, CreateScope with initializers, child CreateScope} x closer in {scope.Close, ancestor.Close, provider.Close, context cancel}: the op is parked at each of its user-code callbacks j, the closer runs to completion, the op resumes; and the mirror image (closer parked inside each disposable's Close, the op runs). " +
+			"(b) overlaps, exhaustive over pause points: for op in {Get scoped, Get transient with dependencies, GetGroup, GetKeyed, CreateScope with initializers, child CreateScope} x closer in {scope.Close, ancestor.Close, provider.Close, context cancel}: the op is parked at each of its user-code callbacks j, the closer runs to completion, the op resumes; and the mirror image (closer parked inside each disposable's Close, the op runs), and the sandwich (op parked in a constructor, closer parked inside a disposable's Close after the disposal list was drained, op released first). " +
 			"Oracle: the op returns normally or with the disposed error, never a recovered panic, never a hang (deadlock = goroutines stuck in godi in two samples); a returned scope/instance is usable or consistently disposed; at the end every container-created disposable was closed exactly once; the history is linearizable against the scope-tree model (porcupine). Non-trivial: the op really overlapped the closer (gate reached); distinct = scenario x pause point.",
 		Shards:        func(tier string) int { return 16 },
 		Run:           runC13,
-		NeedEvents:    []string{"sequential_post_close_ops", "overlap_pause_points", "mirror_pause_points", "porcupine_histories", "cancel_awaits"},
+		NeedEvents:    []string{"sequential_post_close_ops", "overlap_pause_points", "mirror_pause_points", "sandwich_pause_points", "porcupine_histories", "cancel_awaits"},
 		ShardTimeoutS: func(tier string) int { return 900 },
 	})
 }
@@ -139,6 +139,17 @@ func runC13(c *eng.Ctx) {
 				}
 				c.R.Begin(idx)
 				overlapOnce(c, idx, sc, anc, leaf, j, false)
+			}
+			// sandwich: the op finishes constructing while the closer is inside a disposable's Close
+			if !(sc.op.Kind == core.OpGet && (sc.op.Type == "K3" || sc.op.Type == "S2")) { // those are pre-resolved below (cache hits)
+				for j := 1; j <= points; j++ {
+					idx, mine := next()
+					if !mine {
+						continue
+					}
+					c.R.Begin(idx)
+					sandwichOnce(c, "C13", idx, sc, j)
+				}
 			}
 			// mirror: closer parked inside the j-th disposable Close, op runs
 			dry2, anc2, leaf2 := c13Setup(sc)
@@ -418,4 +429,148 @@ func awaitDisposed(r *core.Run, scope int) bool {
 		}
 	}
 	return false
+}
+
+// sandwichOnce: the op is parked inside its j-th constructor callback, the closer is started
+// and parked inside the first disposable Close it performs (i.e. the scope is flagged
+// disposed and its disposal list already drained), the op is released and finishes
+// constructing in the middle of that Close, then the closer is released.
+func sandwichOnce(c *eng.Ctx, prop string, idx int, sc overlapScenario, j int) {
+	r, anc, leaf := c13Setup(sc)
+	if !r.Built {
+		c.R.End(idx, eng.Hash("c13-unbuilt", sc.name), false)
+		return
+	}
+	op := sc.op
+	op.Scope = leaf
+	if sc.onParent {
+		op.Scope = 0
+	}
+	closer := sc.closerOp(anc, leaf)
+	// the scopes own disposables before the overlap starts, so that the closer has Close
+	// callbacks to be parked in
+	for _, t := range []string{"S2", "K3"} {
+		r.Do(core.Op{Kind: core.OpGet, Scope: leaf, Type: t})
+		r.Do(core.Op{Kind: core.OpGet, Scope: anc, Type: t})
+	}
+	var opG int64 = -1
+	var gmu sync.Mutex
+	ctorCount := 0
+	gateOp := NewGate(func(hp rt.HookPoint) bool {
+		gmu.Lock()
+		defer gmu.Unlock()
+		if hp.Where != "ctor" || hp.G != opG {
+			return false
+		}
+		ctorCount++
+		return ctorCount == j
+	})
+	gateClose := NewGate(func(hp rt.HookPoint) bool {
+		gmu.Lock()
+		defer gmu.Unlock()
+		return hp.Where == "close" && hp.G != opG
+	})
+	r.Rec.SetHook(func(hp rt.HookPoint) { gateOp.Hook(hp); gateClose.Hook(hp) })
+	var opRes, clRes core.OpResult
+	var wg sync.WaitGroup
+	wg.Add(1)
+	opDone := make(chan struct{})
+	go func() {
+		defer wg.Done()
+		defer close(opDone)
+		gmu.Lock()
+		opG = rt.Goid()
+		gmu.Unlock()
+		opRes = r.Do(op)
+	}()
+	reached := gateOp.WaitReached(5 * time.Second)
+	wg.Add(1)
+	go func() { defer wg.Done(); clRes = r.Do(closer) }()
+	closerParked := gateClose.WaitReached(2 * time.Second)
+	gateOp.Release()
+	select {
+	case <-opDone:
+	case <-time.After(2 * time.Second): // steering only
+	}
+	gateClose.Release()
+	done := make(chan struct{})
+	go func() { wg.Wait(); close(done) }()
+	feat := sc.name + "|op-finishes-inside-close"
+	if v := awaitOrDiagnose(done, 60*time.Second); !v.Done {
+		if v.Deadlock {
+			c.R.Violation(eng.Violation{Prop: prop, Clause: "hang", Sig: prop + "/hang:" + feat + ":" + innermostGodiFn(v.Dump), Case: idx, CaseID: feat, Detail: fmt.Sprintf("%s, pause point %d: operations never returned; goroutines stuck inside godi:\n%s", feat, j, v.Dump)})
+		} else {
+			c.R.Inconclusive(idx, "sandwich overlap did not finish within the watchdog")
+		}
+		c.R.Abandon(idx)
+	}
+	r.Rec.SetHook(nil)
+	var fs []core.Finding
+	okClasses := map[string]bool{"ok": true, "scope-disposed": true, "provider-disposed": true}
+	if opRes.Class == "PANIC" {
+		fs = append(fs, core.Finding{Clause: "overlap-panic", Sig: feat, Detail: fmt.Sprintf("%s, pause point %d: %s panicked: %v", feat, j, op.String(), opRes.Panic)})
+	} else if !okClasses[opRes.Class] {
+		fs = append(fs, core.Finding{Clause: "overlap-unexpected-error", Sig: feat + ":" + opRes.Class, Detail: fmt.Sprintf("%s, pause point %d: %s returned %s (%v)", feat, j, op.String(), opRes.Class, core.TrimErr(opRes.Err))})
+	}
+	if clRes.Class == "PANIC" {
+		fs = append(fs, core.Finding{Clause: "overlap-panic", Sig: feat + ":closer", Detail: fmt.Sprintf("%s, pause point %d: the closing call panicked: %v", feat, j, clRes.Panic)})
+	}
+	if !r.Poisoned && op.Kind == core.OpCreate && opRes.Class == "ok" && opRes.NewScope > 0 {
+		if cl := r.Do(core.Op{Kind: core.OpClose, Scope: opRes.NewScope}); cl.Class == "PANIC" {
+			fs = append(fs, core.Finding{Clause: "half-initialised-scope", Sig: feat + ":close-panics", Detail: fmt.Sprintf("%s, pause point %d: closing the scope returned by the overlapping CreateScope panics: %v", feat, j, cl.Panic)})
+		}
+	}
+	if !r.Poisoned {
+		if sc.closer == "cancel" {
+			awaitDisposed(r, leaf)
+		}
+		r.Finish()
+		o := core.Digest(r)
+		for _, x := range core.OwnedDisposables(r, o) {
+			if n := len(o.Closes[x.ID]); n != 1 {
+				fs = append(fs, core.Finding{Clause: "overlap-conservation", Sig: fmt.Sprintf("%s:closed-%d-times:%s", feat, min(n, 2), core.LifeName(r.Model.Regs[x.Reg].Life)), Detail: fmt.Sprintf("%s, pause point %d: %s of %s was closed %d times by the end of the history (constructed in op%d; op result %s)", feat, j, o.InstName(x.ID), r.Model.Describe(x.Reg), n, x.Run.Op, opRes.Class)})
+			}
+		}
+	}
+	core.Report(c, prop, idx, r, fs)
+	if reached && closerParked {
+		c.R.Count("sandwich_pause_points", 1)
+	}
+	c.R.Count("op_result_"+opRes.Class, 1)
+	c.R.End(idx, eng.Hash("c13-sandwich", feat, j), reached && closerParked)
+}
+
+func init() { core.C10Overlap = runC10Overlap }
+
+// runC10Overlap drives the "construction overlaps a concurrent Close" clause of C10 with the
+// sandwich schedule (an instance finishes constructing while its scope's Close is inside
+// another disposable's Close): by the end of the history it must have been closed exactly once.
+func runC10Overlap(c *eng.Ctx, next func() (int, bool)) {
+	for _, sc := range overlapScenarios() {
+		if sc.op.Kind == core.OpGet && (sc.op.Type == "K3" || sc.op.Type == "S2") {
+			continue
+		}
+		dry, _, leaf := c13Setup(sc)
+		if !dry.Built {
+			continue
+		}
+		op := sc.op
+		op.Scope = leaf
+		if sc.onParent {
+			op.Scope = 0
+		}
+		before := len(core.Digest(dry).Runs)
+		dry.Do(op)
+		points := len(core.Digest(dry).Runs) - before
+		dry.Finish()
+		for j := 1; j <= points; j++ {
+			idx, mine := next()
+			if !mine {
+				continue
+			}
+			c.R.Begin(idx)
+			sandwichOnce(c, "C10", idx, sc, j)
+			c.R.Count("overlap_with_close_executions", 1)
+		}
+	}
 }
